@@ -123,7 +123,8 @@ def vh(args, stdin=None, race=False, timeout=1800, env=None, check=True):
 
 def crash_in_code_under_test(stderr):
     """The Go runtime killed the harness with an unrecoverable error (stack overflow from unbounded recursion, concurrent map
-    access, ...) or an uncaught panic, and the innermost non-runtime frame belongs to the code under test: returns
+    access, ...) or an uncaught panic, and the innermost frame of the faulting goroutine that is not library code (Go runtime,
+    standard library, third-party packages) belongs to the code under test, not to the harness: returns
     (message, frame), else None.  Such a death while replaying a specified behaviour is a disagreement, not a broken driver."""
     m = re.search(r"^(fatal error: .*|panic: .*)$", stderr, flags=re.M)
     if not m:
@@ -135,11 +136,13 @@ def crash_in_code_under_test(stderr):
     for ln in tail[g.end():].splitlines():
         if not ln or ln.startswith(("\t", " ")):
             continue
-        if ln.startswith(("runtime.", "runtime/", "reflect.", "internal/", "panic(", "sync.", "syscall.")):
-            continue
+        if ln.startswith(("goroutine ", "created by ")):
+            return None                                 # end of the faulting goroutine's stack
         if ln.startswith("github.com/GuanceCloud/platypus/"):
             return m.group(1)[:200], ln.rsplit("(", 1)[0]
-        return None
+        if ln.startswith(("main.", "verifh/", "verifh.")):
+            return None                                 # the harness's own code is the innermost non-library frame
+        # runtime, standard library and third-party library frames: called by whoever is below them
     return None
 
 
